@@ -231,6 +231,16 @@ def run_large(rep, thorough, families):
         for l, o in (('1100', '5'), ('10', '1500'), ('null', '1030'), ('1024', '1024'), ('1', '1023'), ('2', '2599'), ('5', '2600')):
             lim = '-1' if l == 'null' else l
             cs.append(('limit-big:%s:%s' % (l, o), 'topn', {'limit': '(limit %s %s %s)' % (l, o, L)}, 'SELECT c0, c1 FROM t1 LIMIT %s OFFSET %s' % (lim, o), True))
+    if 'agg' in families:
+        # FIRST / LAST across chunk boundaries, on rows where both aggregation paths agree on the meaning (no NULLs):
+        # the running state must not win over a later chunk (LAST) nor lose to one (FIRST); reference computed here
+        fl = '(list (first $1.1) (last $1.1) (count $1.1))'
+        src = '(filter (> $1.1 0) %s)' % L
+        vals = [b for _, b in db['1'] if b is not None and b > 0]
+        ref_fl = [[str(vals[0]), str(vals[-1]), str(len(vals))]]
+        cs.append(('agg:first-last', 'agg', {'simple': '(agg %s %s)' % (fl, src)}, ref_fl, False))
+        cs.append(('agg:first-last-grouped', 'agg', {'hash': '(hashagg (list (> $1.1 0)) %s %s)' % (fl, src), 'sort': '(sortagg (list (> $1.1 0)) %s %s)' % (fl, src)},
+                   [['true'] + ref_fl[0]], False))
     plans = []
     for c in cs:
         for impl, p in c[2].items():
@@ -249,7 +259,7 @@ def run_large(rep, thorough, families):
         if not o.get('ok') or o.get('panicked'):
             rep.skip('%s via %s on chunk-crossing input' % (name, impl), 'not executable: %s' % (o.get('err') or 'panic'))
             continue
-        ref = sqlite_rows(db, sql)
+        ref = sql if isinstance(sql, list) else sqlite_rows(db, sql)
         if isinstance(ref, str):
             continue
         n += 1
